@@ -244,6 +244,49 @@ def run_defaults(case):
         except Exception as e:  # noqa
             v("C18/defaults/getDefaultStack/raises:%s" % type(e).__name__,
               "getDefaultStack(layer=%s, axolotl=%s, ...) raised %r" % ("<layer>" if extra else None, case["axolotl"], e))
+    # two default stacks in one process (built the way the demos build them) are independent objects: no layer instance
+    # is shared, and an event in one does not show up in the other
+    try:
+        tops = []
+        stacks = []
+        for si in range(2):
+            top = type("Top%d" % si, (_S["Rec"],), {"lid": "top%d" % si, "log": [], "consume_for": ()})
+            tops.append(top)
+            if case["kind"] == "default_layers":
+                stacks.append(S["YowStackBuilder"]().pushDefaultLayers().push(top).build())
+            else:
+                stacks.append(S["YowStackBuilder"].getDefaultStack(layer=top, axolotl=case["axolotl"], **kw))
+
+        def objs(st):
+            out = []
+            i = 0
+            while True:
+                try:
+                    layer = st.getLayer(i)
+                except Exception:
+                    break
+                if layer is None:
+                    break
+                out.append(layer)
+                out.extend(getattr(layer, "sublayers", None) or [])
+                i += 1
+                if i > 40:
+                    break
+            return out
+        a, b = objs(stacks[0]), objs(stacks[1])
+        shared = [x.__class__.__name__ for x in a if any(x is y for y in b)]
+        if shared:
+            v("C18/defaults/two-stacks/shared-layer-instances", "two stacks built one after the other share layer objects: %s"
+              % shared[:5])
+        for st, mine, other in ((stacks[0], tops[0], tops[1]), (stacks[1], tops[1], tops[0])):
+            n0, n1 = len(mine.log), len(other.log)
+            st.getLayer(0).emitEvent(S["YowLayerEvent"]("org.verif.probe"))
+            if len(mine.log) != n0 + 1 or len(other.log) != n1:
+                v("C18/defaults/two-stacks/event-crosses-stacks", "an event emitted at the bottom of one stack was seen %d times "
+                  "by its own top layer and %d times by the other stack's top layer" % (len(mine.log) - n0, len(other.log) - n1))
+    except Exception as e:  # noqa
+        if not viol:
+            v("C18/defaults/two-stacks/raises:%s" % type(e).__name__, repr(e))
     h = hashlib.sha256(repr(sorted(case.items())).encode()).hexdigest()[:16]
     return {"violations": viol[:2], "nontrivial": True, "digest": h, "faults": {}, "probes": {}, "steps": 1, "vtime": 0.0}
 
